@@ -52,6 +52,7 @@ func rankIn(order []string, kind string) int {
 // pobj is one decoded YAML document.
 type pobj struct {
 	Canon  string   // canonical JSON of the whole document
+	Ident  string   // apiVersion|kind|namespace|name: what a delete request addresses
 	Kind   string   // .kind
 	Name   string   // .metadata.name
 	Dest   string   // expected destination: manifest | hook | dropped | never   (inputs only)
@@ -64,6 +65,28 @@ func (o pobj) id() string { return o.Kind + "/" + o.Name }
 // decodeStream reads a YAML stream with yaml.v3's Decoder; empty documents
 // (nothing, or comments only) decode to nil and produce no object.
 func decodeStream(text string) ([]pobj, error) {
+	if len(text) < 600 { // single documents recur constantly (hook manifests, uninstall entries); the function is pure
+		if r, ok := decodeMemo[text]; ok {
+			return r.objs, r.err
+		}
+		objs, err := decodeStreamRaw(text)
+		if len(decodeMemo) > 50000 {
+			decodeMemo = map[string]decoded{}
+		}
+		decodeMemo[text] = decoded{objs, err}
+		return objs, err
+	}
+	return decodeStreamRaw(text)
+}
+
+type decoded struct {
+	objs []pobj
+	err  error
+}
+
+var decodeMemo = map[string]decoded{}
+
+func decodeStreamRaw(text string) ([]pobj, error) {
 	dec := yaml3.NewDecoder(strings.NewReader(text))
 	var out []pobj
 	for {
@@ -85,9 +108,13 @@ func decodeStream(text string) ([]pobj, error) {
 		o := pobj{Canon: string(b)}
 		if m, ok := v.(map[string]any); ok {
 			o.Kind, _ = m["kind"].(string)
+			ns := ""
 			if md, ok := m["metadata"].(map[string]any); ok {
 				o.Name, _ = md["name"].(string)
+				ns, _ = md["namespace"].(string)
 			}
+			av, _ := m["apiVersion"].(string)
+			o.Ident = av + "|" + o.Kind + "|" + ns + "|" + o.Name
 		}
 		out = append(out, o)
 	}
@@ -179,8 +206,8 @@ type hookView struct {
 // judgeInfo reports what a case exercised (vacuity statistics).
 type judgeInfo struct {
 	NManifest, NHook, NDropped, NNever int
-	Reordered                         bool // install order differs from original order
-	UninstallWithinKindMoved          bool // uninstall keeps rank order but not the manifest order within a kind (not promised by the statement)
+	Reordered                          bool // install order differs from original order
+	UninstallWithinKindMoved           bool // uninstall keeps rank order but not the manifest order within a kind (not promised by the statement)
 }
 
 func names(os []pobj) string {
@@ -209,7 +236,10 @@ func judge(in []pobj, manifest string, hooks []hookView, uninst []string, uninst
 	var actH []pobj
 	hookEvents := map[string][]string{}
 	for i, h := range hooks {
-		os, err := decodeStream(h.Manifest)
+		// A hook's manifest is stored without its final line break; every consumer (helm get hooks, helm template,
+		// kube.Client.Build's line reader) reads it as a text file and supplies it. Read it the same way: otherwise
+		// a document ending in a literal block scalar would count as altered although the applied object is intact.
+		os, err := decodeStream(h.Manifest + "\n")
 		if err != nil {
 			add("hook-unparseable", "Release.Hooks[%d].Manifest is not a YAML stream: %v", i, err)
 			continue
@@ -327,7 +357,7 @@ func judge(in []pobj, manifest string, hooks []hookView, uninst []string, uninst
 			expM = append(expM, o)
 		}
 	}
-	if v, moved := orderCheck(expM, actM, installOrderSpec); v != "" {
+	if v, moved := orderCheck(expM, actM, installOrderSpec, func(o pobj) string { return o.Canon }); v != "" {
 		add("install-order:"+v, "manifest order [%s] for documents in original order [%s]", names(actM), names(expM))
 	} else if moved {
 		info.Reordered = true
@@ -346,13 +376,14 @@ func judge(in []pobj, manifest string, hooks []hookView, uninst []string, uninst
 			}
 			del = append(del, os...)
 		}
+		// uninstall addresses objects by identity; the content of the entries is not applied
 		dc := map[string]int{}
 		for _, o := range del {
-			dc[o.Canon]++
+			dc[o.Ident]++
 		}
 		ok := true
 		for _, o := range actM {
-			dc[o.Canon]--
+			dc[o.Ident]--
 		}
 		var keys []string
 		for k := range dc {
@@ -363,14 +394,14 @@ func judge(in []pobj, manifest string, hooks []hookView, uninst []string, uninst
 			switch {
 			case dc[k] < 0:
 				ok = false
-				add("uninstall:lost", "%s is in the manifest but uninstall would not delete it", first[k].id())
+				add("uninstall:lost", "%s is in the manifest but uninstall would not delete it", k)
 			case dc[k] > 0:
 				ok = false
-				add("uninstall:duplicated", "uninstall would delete %q %d time(s) more often than the manifest holds it", k, dc[k])
+				add("uninstall:duplicated", "uninstall would delete %s %d time(s) more often than the manifest holds it", k, dc[k])
 			}
 		}
 		if ok {
-			v, _ := orderCheck(actM, del, uninstallOrderSpec)
+			v, _ := orderCheck(actM, del, uninstallOrderSpec, func(o pobj) string { return o.Ident })
 			switch v {
 			case "rank":
 				add("uninstall-order:rank", "uninstall order [%s] for manifest [%s]", names(del), names(actM))
@@ -385,7 +416,7 @@ func judge(in []pobj, manifest string, hooks []hookView, uninst []string, uninst
 // orderCheck: got must be a permutation of orig (already established) with
 // non-decreasing rank and, per kind, the objects in orig's order.
 // Returns "" | "rank" | "within-kind", and whether got differs from orig at all.
-func orderCheck(orig, got []pobj, order []string) (string, bool) {
+func orderCheck(orig, got []pobj, order []string, key func(pobj) string) (string, bool) {
 	for i := 0; i+1 < len(got); i++ {
 		if rankIn(order, got[i].Kind) > rankIn(order, got[i+1].Kind) {
 			return "rank", true
@@ -394,7 +425,7 @@ func orderCheck(orig, got []pobj, order []string) (string, bool) {
 	perKind := func(os []pobj) map[string][]string {
 		m := map[string][]string{}
 		for _, o := range os {
-			m[o.Kind] = append(m[o.Kind], o.Canon)
+			m[o.Kind] = append(m[o.Kind], key(o))
 		}
 		return m
 	}
@@ -406,7 +437,7 @@ func orderCheck(orig, got []pobj, order []string) (string, bool) {
 	}
 	moved := false
 	for i := range got {
-		if i >= len(orig) || orig[i].Canon != got[i].Canon {
+		if i >= len(orig) || key(orig[i]) != key(got[i]) {
 			moved = true
 		}
 	}
